@@ -22,6 +22,14 @@ try:
     meta = json.load(open(seed + '/meta.json'))
     files = meta.get('files', [])
     sub = 'v2' if any(f.startswith('v2/') for f in files) else '.'
+    if demos:
+        import re
+        m = re.search(r'^package (\w+)', open(demos[0]).read(), re.M)
+        pkg = m.group(1) if m else 'iavl'
+        if pkg in ('db', 'db_test'):
+            sub = 'db'
+        elif pkg.startswith('fastnode'):
+            sub = 'fastnode'
     # demo on the unchanged tree
     for d in demos:
         shutil.copy(d, os.path.join(wt, sub))
